@@ -61,3 +61,25 @@ PFoo = _mk('PFoo', __name__, extra={'post_init': _post_init})
 P2 = _mk('P2', __name__, cache=labtech.cache.PickleCache(pickle_protocol=2))
 
 ALL = (Foo, FooBar, Foo_, Leaf, NoCacheT, JFoo, PFoo, P2)
+
+
+def _shape_payload(kind: str, n: int):
+    if kind == 'scalar':
+        return n
+    if kind == 'none':
+        return None
+    if kind == 'nested':
+        return {'a': [1, (2, 3.5)], 'b': {'c': None, 'd': {'e': (n, 'é')}}, 'set': frozenset({1, n})}
+    if kind == 'large':
+        return [bytes([i % 251]) * 1024 for i in range(n)]      # n KiB in n chunks: multi-frame pickle
+    if kind == 'enum':
+        return [Color.RED, Shade.GREEN]
+    raise ValueError(kind)
+
+
+def _shape_run(self):
+    WORLD.rec('start', (type(self).__module__, type(self).__qualname__, self.cache_key))
+    return ('R', type(self).__module__, type(self).__qualname__, canon(self), _shape_payload(self.kind, self.n), WORLD.epoch)
+
+
+Shape = _mk('Shape', __name__, fields=('kind', 'n'), extra={'run': _shape_run})
